@@ -29,6 +29,8 @@ def pStage : P (Option Stage) := do
   | "none" => pure none
   | "chan" => do let k ← P.nat; pure (some (Stage.pure (StageFn.chan k).eval))
   | "chanAdd" => do let k ← P.nat; let l ← P.nat; pure (some (Stage.pure (StageFn.chanAdd k l).eval))
+  | "gray" => pure (some (Stage.pure (StageFn.gray).eval))
+  | "negkey" => pure (some (Stage.pure (StageFn.negKey).eval))
   | "affine" => do let a ← P.rat; let b ← P.rat; pure (some (Stage.pure (StageFn.affine a b).eval))
   | "clip" => do let lo ← P.rat; let hi ← P.opt P.rat; pure (some (Stage.pure (StageFn.clip lo hi).eval))
   | _ => failure
@@ -60,7 +62,14 @@ def pCall : P String := do
   let ts := ";".intercalate (tr.map fun p => p.1.show ++ "=" ++ showArr p.2)
   pure s!"{ts}|{kindShow res.kind}|{showArr res.out}"
 
+/-- `diffint <bits> <opt> <n> probe... <n> base...` → promoted differences, exact -/
+def pDiffInt : P String := do
+  let bits ← P.nat; let opt ← pOpt
+  let probe ← P.list P.nat; let base ← P.list P.nat
+  pure (showRats (diffPromoted bits opt base probe))
+
 def dispatch : List String → Option String
+  | "diffint" :: rest => (pDiffInt.run rest).map (·.1)
   | "call" :: rest => (pCall.run rest).map (·.1)
   | _ => none
 
